@@ -109,15 +109,27 @@ func validBodies(w *world.World) map[string][]string {
 	return map[string][]string{
 		"noble.orbiter.component.forwarder.v1.MsgPauseProtocol":   {`{"protocol_id":"PROTOCOL_CCTP"}`, `{"protocol_id":"PROTOCOL_IBC"}`},
 		"noble.orbiter.component.forwarder.v1.MsgUnpauseProtocol": {`{"protocol_id":"PROTOCOL_HYPERLANE"}`, `{"protocol_id":"PROTOCOL_INTERNAL"}`},
+		// the largest batches the messages take (100 identifiers) are valid content too
 		"noble.orbiter.component.forwarder.v1.MsgPauseCrossChains": {`{"protocol_id":"PROTOCOL_CCTP","counterparty_ids":["0","3"]}`,
-			`{"protocol_id":"PROTOCOL_HYPERLANE","counterparty_ids":["1"]}`},
+			`{"protocol_id":"PROTOCOL_HYPERLANE","counterparty_ids":["1"]}`, `{"protocol_id":"PROTOCOL_CCTP","counterparty_ids":` + idBatch(300, 100) + `}`,
+			`{"protocol_id":"PROTOCOL_CCTP","counterparty_ids":` + idBatch(300, 99) + `}`},
 		"noble.orbiter.component.forwarder.v1.MsgUnpauseCrossChains": {`{"protocol_id":"PROTOCOL_CCTP","counterparty_ids":["5"]}`,
-			`{"protocol_id":"PROTOCOL_HYPERLANE","counterparty_ids":["7"]}`},
+			`{"protocol_id":"PROTOCOL_HYPERLANE","counterparty_ids":["7"]}`, `{"protocol_id":"PROTOCOL_CCTP","counterparty_ids":` + idBatch(100, 100) + `}`,
+			`{"protocol_id":"PROTOCOL_CCTP","counterparty_ids":` + idBatch(100, 99) + `}`},
 		"noble.orbiter.component.forwarder.v1.MsgReplaceDepositForBurn": {},
 		"noble.orbiter.component.executor.v1.MsgPauseAction":            {`{"action_id":"ACTION_FEE"}`},
 		"noble.orbiter.component.executor.v1.MsgUnpauseAction":          {`{"action_id":"ACTION_SWAP"}`},
 		"noble.orbiter.component.adapter.v1.MsgUpdateParams":            {`{"params":{"max_passthrough_payload_size":77}}`},
 	}
+}
+
+// idBatch is the JSON list of n decimal identifiers from, from+1, ...
+func idBatch(from, n int) string {
+	ids := make([]string, n)
+	for i := range ids {
+		ids[i] = fmt.Sprintf("%q", fmt.Sprint(from+i))
+	}
+	return "[" + strings.Join(ids, ",") + "]"
 }
 
 // effectiveBodies are bodies that DO change state when the authority sends them in c10State but
@@ -142,12 +154,23 @@ func c10State(w *world.World) sdk.Context {
 		{Kind: "pause_cc", Protocol: "PROTOCOL_CCTP", Ids: []string{"5"}},
 		{Kind: "pause_cc", Protocol: "PROTOCOL_HYPERLANE", Ids: []string{"7"}},
 		{Kind: "pause_action", Action: "ACTION_SWAP"},
+		{Kind: "pause_cc", Protocol: "PROTOCOL_CCTP", Ids: c10Batch},
 	} {
 		msg, _ := kit.BuildAdmin(a)
 		w.MustTx(ctx, msg)
 	}
 	return ctx
 }
+
+// c10Batch: the CCTP domains 100..199, paused in the prepared state so that a full batch of 100
+// can be unpaused.
+var c10Batch = func() []string {
+	ids := make([]string, 100)
+	for i := range ids {
+		ids[i] = fmt.Sprint(100 + i)
+	}
+	return ids
+}()
 
 func buildC10Msg(w *world.World, c caseC10, info rpcInfo) (sdk.Msg, error) {
 	msg, err := newMsg(c.Input)
